@@ -229,6 +229,9 @@ func runSchedules(r *core.Run, depth int, alpha []hop, cfgs []hcfg) {
 			add(fmt.Sprintf("%s-%s-2req-limit1", algo, st), sparams{Algo: algo, Storage: st, Skip: "none", Limit: 1, Reqs: same(2, 200), Probe: 1}, b2, xplore.Bounds{0, 4, 0, 0}, false)
 			add(fmt.Sprintf("%s-%s-3req-limit2", algo, st), sparams{Algo: algo, Storage: st, Skip: "none", Limit: 2, Reqs: same(3, 200), Probe: 1}, b2, b3, false)
 			add(fmt.Sprintf("%s-%s-2req-limit2-otherkey", algo, st), sparams{Algo: algo, Storage: st, Skip: "none", Limit: 2, Reqs: append(same(2, 200), sreq{ID: "o1", Key: "b", Status: 200}), Probe: 1}, b2, b3, false)
+			// a skipped request gives its hit back while another request is admitted (lost update needs limit 2)
+			add(fmt.Sprintf("%s-%s-skipfailed-giveback-limit2", algo, st), sparams{Algo: algo, Storage: st, Skip: "failed", Limit: 2,
+				Reqs: []sreq{{"f1", "a", 500}, {"r1", "a", 200}}, Probe: 2}, b2, b3, false)
 			add(fmt.Sprintf("%s-%s-skipfailed-3req-limit1", algo, st), sparams{Algo: algo, Storage: st, Skip: "failed", Limit: 1,
 				Reqs: []sreq{{"f1", "a", 500}, {"r1", "a", 200}, {"r2", "a", 200}}, Probe: 1}, b2, b3, false)
 		}
